@@ -233,6 +233,151 @@ func c08Embedded(c *mon.Ctx) {
 	c.Count("embedded_struct_scenarios")
 }
 
+// Types whose METHODS compute from hidden / unexported fields: number-like
+// (the method set of json.Number), fmt.Stringer, error, encoding.TextMarshaler,
+// json.Marshaler, fmt.GoStringer, fmt.Formatter - with value and with pointer
+// receivers. Nothing a method returns may become observable.
+type c08Fixed struct {
+	Label string
+	units int64
+	Scale int `bexpr:"-" alt:"-"`
+}
+
+func (f c08Fixed) Int64() (int64, error)     { return f.units, nil }
+func (f c08Fixed) Float64() (float64, error) { return float64(f.units) / float64(f.Scale+1), nil }
+func (f c08Fixed) String() string            { return fmt.Sprintf("%d", f.units*int64(f.Scale+1)) }
+
+type c08FixedPtr struct {
+	Label string
+	units int64
+	Scale int `bexpr:"-" alt:"-"`
+}
+
+func (f *c08FixedPtr) Int64() (int64, error)     { return f.units, nil }
+func (f *c08FixedPtr) Float64() (float64, error) { return float64(f.units), nil }
+func (f *c08FixedPtr) String() string            { return fmt.Sprintf("%d", f.units) }
+
+type c08Texty struct {
+	Label string
+	token string
+	Pin   string `bexpr:"-" alt:"-"`
+}
+
+func (t c08Texty) String() string                { return t.token + t.Pin }
+func (t c08Texty) Error() string                 { return t.token + t.Pin }
+func (t c08Texty) GoString() string              { return t.token + t.Pin }
+func (t c08Texty) MarshalText() ([]byte, error)  { return []byte(t.token + t.Pin), nil }
+func (t c08Texty) MarshalJSON() ([]byte, error)  { return []byte(`"` + t.token + t.Pin + `"`), nil }
+func (t c08Texty) Format(f fmt.State, verb rune) { fmt.Fprint(f, t.token+t.Pin) }
+func (t c08Texty) Len() int                      { return len(t.token) }
+func (t c08Texty) IsZero() bool                  { return t.token == "" }
+func (t c08Texty) Equal(o c08Texty) bool         { return t.token == o.token }
+func (t c08Texty) Interface() interface{}        { return t.token }
+func (t c08Texty) Bool() bool                    { return t.token != "" }
+
+func c08Methods(c *mon.Ctx) {
+	type pair struct {
+		name   string
+		d1, d2 interface{}
+	}
+	holder := func(v interface{}, mk func(v interface{}) (interface{}, interface{})) map[string]interface{} {
+		l, m := mk(v)
+		return map[string]interface{}{"amt": v, "l": l, "m": m, "w": map[string]interface{}{"in": v}}
+	}
+	pairs := []pair{
+		{"number-like value receiver",
+			holder(c08Fixed{"l", 5, 1}, func(v interface{}) (interface{}, interface{}) {
+				x := v.(c08Fixed)
+				return []c08Fixed{x}, map[string]c08Fixed{"k": x}
+			}),
+			holder(c08Fixed{"l", 9, 3}, func(v interface{}) (interface{}, interface{}) {
+				x := v.(c08Fixed)
+				return []c08Fixed{x}, map[string]c08Fixed{"k": x}
+			})},
+		{"number-like pointer to value receiver",
+			holder(&c08Fixed{"l", 5, 1}, func(v interface{}) (interface{}, interface{}) {
+				x := v.(*c08Fixed)
+				return []*c08Fixed{x}, map[string]*c08Fixed{"k": x}
+			}),
+			holder(&c08Fixed{"l", 9, 3}, func(v interface{}) (interface{}, interface{}) {
+				x := v.(*c08Fixed)
+				return []*c08Fixed{x}, map[string]*c08Fixed{"k": x}
+			})},
+		{"number-like pointer receiver",
+			holder(&c08FixedPtr{"l", 5, 1}, func(v interface{}) (interface{}, interface{}) {
+				x := v.(*c08FixedPtr)
+				return []*c08FixedPtr{x}, map[string]*c08FixedPtr{"k": x}
+			}),
+			holder(&c08FixedPtr{"l", 9, 3}, func(v interface{}) (interface{}, interface{}) {
+				x := v.(*c08FixedPtr)
+				return []*c08FixedPtr{x}, map[string]*c08FixedPtr{"k": x}
+			})},
+		{"text-like value receiver",
+			holder(c08Texty{"l", "5", ""}, func(v interface{}) (interface{}, interface{}) {
+				x := v.(c08Texty)
+				return []c08Texty{x}, map[string]c08Texty{"k": x}
+			}),
+			holder(c08Texty{"l", "tok", "9"}, func(v interface{}) (interface{}, interface{}) {
+				x := v.(c08Texty)
+				return []c08Texty{x}, map[string]c08Texty{"k": x}
+			})},
+		{"text-like as error / Stringer interface",
+			holder(error(c08Texty{"l", "5", ""}), func(v interface{}) (interface{}, interface{}) {
+				x := v.(error)
+				return []error{x}, map[string]fmt.Stringer{"k": x.(fmt.Stringer)}
+			}),
+			holder(error(c08Texty{"l", "tok", "9"}), func(v interface{}) (interface{}, interface{}) {
+				x := v.(error)
+				return []error{x}, map[string]fmt.Stringer{"k": x.(fmt.Stringer)}
+			})},
+	}
+	exprs := []string{`amt == 5`, `amt != 5`, `amt == "5"`, `amt == 10`, `amt == 2.5`, `amt matches "5"`, `amt not matches "^5$"`, `"5" in amt`, `5 in amt`, `amt is empty`, `amt is not empty`,
+		`amt.Label == l`, `amt.units == 5`, `amt.token == "5"`, `amt.Scale == 1`, `w.in == 5`, `"/w/in" == "5"`, `5 in l`, `"5" in l`, `l is empty`, `l.0 == 5`,
+		`any l as v { v == 5 }`, `all l as v { v != 5 }`, `any m as k, v { v == 5 }`, `all m as _, v { v matches "5" }`, `any amt as k, v { v == 5 }`, `any amt as k { k == units }`, `m.k == 5`, `not (amt == 5)`}
+	for _, p := range pairs {
+		for _, tag := range []string{"", "alt"} {
+			for _, e := range exprs {
+				var opts []bexpr.Option
+				if tag != "" {
+					opts = append(opts, bexpr.WithTagName(tag))
+				}
+				for _, unk := range []bool{false, true} {
+					o := opts
+					if unk {
+						o = append(append([]bexpr.Option(nil), opts...), bexpr.WithUnknownValue("5"))
+					}
+					ev, err, pan, _ := createEval(e, o...)
+					if pan != "" || err != nil {
+						continue
+					}
+					o1, o2 := evaluate(ev, p.d1), evaluate(ev, p.d2)
+					c.Evals(2)
+					c.Count("method_bearing_type_evaluations")
+					if o1.Class() != o2.Class() {
+						c.Violation("C08 evaluate-differs method-bearing-type "+o1.Class()+"-vs-"+o2.Class(), "two data that differ only in hidden / unexported fields (which the type's methods read) gave different outcomes",
+							map[string]any{"type": p.name, "expression": e, "tag": tag, "unknown_value_configured": unk, "outcome1": o1.String(), "outcome2": o2.String()})
+					}
+				}
+			}
+		}
+		for _, fe := range []string{`Label == l`, `units == 5`, `Scale == 1 or Label == l`, `token == "5" or Label == zz`} {
+			f, _ := bexpr.CreateFilter(fe)
+			if f == nil {
+				continue
+			}
+			l1, l2 := p.d1.(map[string]interface{})["l"], p.d2.(map[string]interface{})["l"]
+			x1, x2 := execute(f, l1), execute(f, l2)
+			c.Evals(2)
+			if lenOf(x1.out) != lenOf(x2.out) || (x1.err == nil) != (x2.err == nil) {
+				c.Violation("C08 filter-selection-differs method-bearing-type", "Filter.Execute kept different elements on data that differ only in hidden fields", map[string]any{"type": p.name, "expression": fe, "kept1": lenOf(x1.out), "kept2": lenOf(x2.out)})
+			}
+		}
+		c.Count("method_bearing_type_scenarios")
+	}
+}
+
+var c08AltTags = []string{"alt", "x-filter", "bexpr.v2", "BEXPR", "json", "a+b", "bexpr_", "ключ", "alt"}
+
 func c08Run(c *mon.Ctx, idx int) {
 	r := c.RNG(idx)
 	if idx%200 == 0 {
@@ -241,11 +386,16 @@ func c08Run(c *mon.Ctx, idx int) {
 	if idx%200 == 1 {
 		c08Embedded(c)
 	}
+	if idx%200 == 2 {
+		c08Methods(c)
+	}
 	doc := univ.GenObj(r, 3, true)
 	seed := r.Int63()
 	mode := 2 + idx%3
-	d1 := univ.Represent(rand.New(rand.NewSource(seed)), doc, univ.Policy{Mode: mode, Hidden: true, HiddenSeed: seed + 1})
-	d2 := univ.Represent(rand.New(rand.NewSource(seed)), doc, univ.Policy{Mode: mode, Hidden: true, HiddenSeed: seed + 2})
+	// the alternate tag key: any key reflect.StructTag accepts
+	altTag := c08AltTags[(idx/3)%len(c08AltTags)]
+	d1 := univ.Represent(rand.New(rand.NewSource(seed)), doc, univ.Policy{Mode: mode, Hidden: true, HiddenSeed: seed + 1, AltTag: altTag})
+	d2 := univ.Represent(rand.New(rand.NewSource(seed)), doc, univ.Policy{Mode: mode, Hidden: true, HiddenSeed: seed + 2, AltTag: altTag})
 	if d1.Describe() == d2.Describe() {
 		c.Count("pairs_without_hidden_difference")
 		return
@@ -253,7 +403,8 @@ func c08Run(c *mon.Ctx, idx int) {
 	c.Count("pairs_differing_in_hidden_content")
 	opt := &refsem.Options{}
 	if idx%3 == 0 {
-		opt.TagName = "alt"
+		opt.TagName = altTag
+		c.Count("alternate_tag_key:" + altTag)
 	}
 	if r.Intn(5) == 0 {
 		opt.Unknown = univ.Str("unk")
@@ -385,7 +536,7 @@ func init() {
 		NumCases:    func(tier string) int { return tierN(tier, 6000, 300000) },
 		Run:         c08Run,
 		Required: func(tier string) []string {
-			return []string{"pairs_differing_in_hidden_content", "same_named_type_histories", "embedded_struct_scenarios", "aimed:hidden", "aimed:unexported", "aimed:renamed-by-go-name", "aimed:enclosing-struct", "filter_pairs", "filter_pairs_with_selection", "outcome:T", "outcome:F", "outcome:E"}
+			return []string{"pairs_differing_in_hidden_content", "same_named_type_histories", "embedded_struct_scenarios", "method_bearing_type_scenarios", "aimed:hidden", "aimed:unexported", "aimed:renamed-by-go-name", "aimed:enclosing-struct", "filter_pairs", "filter_pairs_with_selection", "outcome:T", "outcome:F", "outcome:E"}
 		},
 	})
 }
